@@ -4,7 +4,8 @@
 package tea
 
 // listenForResize is not available on windows because windows does not
-// implement syscall.SIGWINCH.
+// implement syscall.SIGWINCH. It only reports the initial terminal size.
 func (p *Program) listenForResize(done chan struct{}) {
-	close(done)
+	defer close(done)
+	p.checkResize()
 }
